@@ -61,13 +61,15 @@ Example nested_quantifier_rejected :
   map (fun pm => linear_bound (old_pattern (fst pm)) (snd pm)) hint_regexes = [None; None; None; None].
 Proof. vm_compute. reflexivity. Qed.
 
-(* ... and really is super-linear: "a:" ++ "1"^n ++ "x" for n = 6, 12, 24 (x30 per doubling, ~n^5),
-   far above the bound proved for the repaired pattern *)
+(* ... and really is super-linear: on "a:" ++ "1"^n ++ "x" for n = 6, 12, 24 the steps grow more than
+   16-fold per doubling (~n^5), while the repaired pattern takes a thousand times fewer steps at n = 24 *)
 Definition digits_x (n : nat) : list Z := [97; 58] ++ repeat 49 n ++ [120].
 Example superlinear_witness :
-  map (fun n => re_steps (old_pattern OLD_STYLE_HINT_RE) MSearch (digits_x n)) [6; 12; 24]%nat = [306; 6349; 192270]%N
-  /\ map (fun n => re_steps OLD_STYLE_HINT_RE MSearch (digits_x n)) [6; 12; 24]%nat = [22; 22; 22]%N.
-Proof. vm_compute. split; reflexivity. Qed.
+  match map (fun n => re_steps (old_pattern OLD_STYLE_HINT_RE) MSearch (digits_x n)) [6; 12; 24]%nat with
+  | [a; b; c] => (16 * a < b /\ 16 * b < c /\ 1000 * re_steps OLD_STYLE_HINT_RE MSearch (digits_x 24) < c)%N
+  | _ => False
+  end.
+Proof. vm_compute. repeat split; reflexivity. Qed.
 
 (* --- the FURL pattern: every attempt is linear, but .search() retries at every position *)
 Definition furl_K : N := match attempt_bound (p_body AUTH_STURDYREF_RE) with Some k => k | None => 0%N end.
